@@ -89,6 +89,9 @@ func evDeterm(t *Tracer, r Rng, name string, dedup, listInput bool, args []strin
 			return
 		}
 		out := append([]string(nil), strs(res)...)
+		for i := range strs(res) { // the result belongs to the caller: overwriting it must not change later answers
+			strs(res)[i] = "overwritten by the caller"
+		}
 		runs = append(runs, out)
 		labels = append(labels, label)
 	}
